@@ -161,6 +161,17 @@ def m_number_as_i64(it, name, a):
 def m_number_misc(it, name, a):
     n = it.deref(a[0])
     op = _meth(name)
+    if isinstance(n, Opaque):
+        n = n.term
+    if z3.is_expr(n) and z3.is_bv(n) and op in ('as_u64', 'is_u64', 'is_i64'):
+        # a symbolic number comes from a serialised signed integer: serde_json stores it as PosInt when >= 0, NegInt otherwise
+        if op == 'is_i64':
+            return True
+        w = n if n.size() == 64 else z3.SignExt(64 - n.size(), n)
+        nonneg = it.decide(w >= 0)
+        if op == 'is_u64':
+            return nonneg
+        return some(w) if nonneg else none()
     if not isinstance(n, (int, float)):
         raise Unsupported('symbolic Number::' + op)
     if op == 'as_u64':
